@@ -320,6 +320,7 @@ def obligation(fns, consts, site, K):
     bad = []
     try:
         fn = find_site(fns, fre)
+        ob['function'] = fn.name + ' (' + name + ')'
         base = Engine(fns, consts, K, {})
         pa = base.run(fn)
         ncont = len(base.containers)
